@@ -147,6 +147,10 @@ func Run(bh Behaviour, seed int64) ([]Line, error) {
 					list = []string{pfx + "00", "h2"}
 				case "nodash":
 					list = []string{pfx + "000abc"}
+				case "goodThenBad":
+					// well-formed entries first, then one the decoder rejects: whatever the decoder had accumulated must not
+					// show up in any later call
+					list = []string{pfx + "00-STALE-PAYLOAD-OF-A-REJECTED-LIST-", pfx + "01-MORE-STALE-", pfx + "nodashatall"}
 				case "onlydash":
 					list = []string{pfx + "-"}
 				case "mixedshort":
